@@ -55,7 +55,7 @@ for prop, d in items:
         rc, out = 124, "timeout"
     viol = [l for l in out.splitlines() if l.startswith("VIOLATION")]
     res = {"applied": True, "private_copy": True, "head": sh("git rev-parse --short HEAD", cwd=repo)[1].strip(),
-           "results": {prop: {"exit": rc, "violation_lines": viol[:5], "wall_s": round(time.time() - t, 1),
+           "checks": {prop: {"exit": rc, "violation_lines": viol[:5], "wall_s": round(time.time() - t, 1),
                               "tail": out.splitlines()[-6:]}}}
     if viol:
         rp = viol[0].split("replay=")[1].split()[0]
